@@ -171,7 +171,8 @@ theorem unhandled_is_uncaught (rs : List Retrier) (cs : List Catcher) (e : Str) 
 theorem unhandled_fails_with_E (env : Env) (fuel : Nat) (states : Json) (name : Str) (state data ctx : Json)
     (retries : Nat) (e msg : Str) (st : St)
     (h : decideError ((listOf (fld state "Retry")).map retrierOf) ((listOf (fld state "Catch")).map catcherOf) e retries = .uncaught) :
-    handleErr env (fuel + 1) states name state data ctx retries e msg st = (.failed e (causeOf msg) false, st) := by
+    handleErr env (fuel + 1) states name state data ctx retries e msg st =
+      (.failed e (causeOf msg) false, st.fanFailedIf state) := by
   simp [handleErr, h]
 
 /-- a retried state is re-run on its *original raw input* with the incremented retry count -/
@@ -190,7 +191,7 @@ theorem error_output_placed (env : Env) (fuel : Nat) (states : Json) (name next 
     (hp : applyResultPath data (errorOutput e (causeOf msg)) (match c.resultPath with | none => some ['$'] | some p => p) = .ok data')
     (hl : (render data').length ≤ env.maxData) :
     handleErr env (fuel + 1) states name state data ctx retries e msg st =
-      runFrom env fuel states next data' ctx 0 (st.exit name data') := by
+      runFrom env fuel states next data' ctx 0 ((st.fanFailedIf state).exit (stateType state) name data') := by
   have : ¬ env.maxData < (render data').length := by omega
   cases hrp : c.resultPath with
   | none => simp only [hrp] at hp; simp [handleErr, h, hn, hrp, hp, this]
@@ -202,7 +203,7 @@ theorem retry_count_reset (env : Env) (fuel : Nat) (states : Json) (name next : 
     (retries : Nat) (st : St) (hE : isTrue (fld state "End") = false) (hN : fldStr state "Next" = some next)
     (hL : (render out).length ≤ env.maxData) :
     leave env (fuel + 1) states name state raw out ctx retries st =
-      runFrom env fuel states next out ctx 0 (st.exit name out) := by
+      runFrom env fuel states next out ctx 0 (st.exit (stateType state) name out) := by
   have : ¬ (render out).length > env.maxData := by omega
   simp [leave, hE, hN, this]
 
@@ -260,10 +261,10 @@ theorem missing_next_fails (env : Env) (fuel : Nat) (states : Json) (name : Str)
     (state raw out ctx : Json) (retries : Nat) (st : St)
     (hE : isTrue (fld state "End") = false) (hN : fldStr state "Next" = none) :
     leave env (fuel + 2) states name state raw out ctx retries st =
-      (.failed (S "States.Runtime") (some (.str (S "<cause>"))) false, st) := by
+      (.failed (S "States.Runtime") (some (.str (S "<cause>"))) false, st.fanFailedIf state) := by
   rw [missing_next_handled_on_raw_input env (fuel + 1) states name state raw out ctx retries st hE hN]
-  exact unhandled_fails_with_E env fuel states name state raw ctx retries _ _ st
-    (states_all_excludes_unrecoverable _ _ _ _ (by decide))
+  exact unhandled_fails_with_E env fuel states name state raw ctx retries (S "States.Runtime") (S "m") st
+    (states_all_excludes_unrecoverable _ _ (S "States.Runtime") _ (by decide))
 
 /-- a state whose oversize output is refused and whose Retry grants a re-run is re-run on its **raw
 input** with the retry count incremented from the count it was entered with -/
@@ -292,7 +293,7 @@ theorem refused_transition_caught_on_raw_input (env : Env) (fuel : Nat) (states 
       (match c.resultPath with | none => some ['$'] | some p => p) = .ok raw')
     (hl : (render raw').length ≤ env.maxData) :
     leave env (fuel + 2) states name state raw out ctx retries st =
-      runFrom env fuel states cnext raw' ctx 0 (st.exit name raw') := by
+      runFrom env fuel states cnext raw' ctx 0 ((st.fanFailedIf state).exit (stateType state) name raw') := by
   rw [refused_transition_handled_on_raw_input env (fuel + 1) states name next state raw out ctx retries st hE hN hL]
   exact error_output_placed env fuel states name cnext state raw raw' ctx retries _ _ st c h hn hp hl
 
@@ -307,7 +308,7 @@ theorem refused_transition_caught_null_resultpath (env : Env) (fuel : Nat) (stat
     (hn : c.next = some cnext) (hrp : c.resultPath = some none)
     (hraw : raw ≠ .null) (hl : (render raw).length ≤ env.maxData) :
     leave env (fuel + 2) states name state raw out ctx retries st =
-      runFrom env fuel states cnext raw ctx 0 (st.exit name raw) := by
+      runFrom env fuel states cnext raw ctx 0 ((st.fanFailedIf state).exit (stateType state) name raw) := by
   refine refused_transition_caught_on_raw_input env fuel states name next cnext state raw out raw ctx retries st c
     hE hN hL h hn ?_ hl
   simp [hrp, applyResultPath, hraw]
@@ -345,9 +346,11 @@ theorem task_refused_transition_retried_on_raw_input (env : Env) (fuel : Nat) (s
     (hd : decideError ((listOf (fld state "Retry")).map retrierOf) ((listOf (fld state "Catch")).map catcherOf)
       (S "States.DataLimitExceeded") retries = .retry d k) :
     runState env (fuel + 3) states name state data ctx retries st =
-      runFrom env fuel states name data ctx (retries + 1) { st with counts := (bump st.counts (fn, params)).2 } := by
+      runFrom env fuel states name data ctx (retries + 1) (st.taskCall (bump st.counts (fn, params)).2 ((fldStr state "Resource").getD []) params
+          (env.task fn params (bump st.counts (fn, params)).1) env.maxData) := by
   have h2 := refused_transition_retried_on_raw_input env fuel states name next state data out ctx retries
-    { st with counts := (bump st.counts (fn, params)).2 } d k hE hN hL hd
+    (st.taskCall (bump st.counts (fn, params)).2 ((fldStr state "Resource").getD []) params
+          (env.task fn params (bump st.counts (fn, params)).1) env.maxData) d k hE hN hL hd
   rw [← h2.2, ← h2.1]
   have h1 : (S "Task" = S "Pass") = False := by decide
   have h2 : (S "Task" = S "Succeed") = False := by decide
@@ -412,13 +415,15 @@ example (fuel : Nat) (states ctx : Json) (st : St) :
 /-- … and refused again at retry count 1: caught, `C` is entered with exactly `rawIn` -/
 example (fuel : Nat) (states ctx : Json) (st : St) :
     leave envS (fuel + 2) states (S "T") tState rawIn bigOut ctx 1 st =
-      runFrom envS fuel states (S "C") rawIn ctx 0 (st.exit (S "T") rawIn) :=
+      runFrom envS fuel states (S "C") rawIn ctx 0 (st.exit (S "Task") (S "T") rawIn) :=
   refused_transition_caught_null_resultpath envS fuel states (S "T") (S "N") (S "C") tState rawIn bigOut ctx 1 st
     theCatcher hEnd hNext hBig hCaught1 rfl rfl (by decide) (by decide)
 /-- the whole state, from `runState` (hypotheses of `task_refused_transition_retried_on_raw_input`) -/
 example (fuel : Nat) (states : Json) :
     runState envS (fuel + 3) states (S "T") tState rawIn (.obj []) 0 {} =
-      runFrom envS fuel states (S "T") rawIn (.obj []) 1 { counts := [((S "f", rawIn), 1)] } := by
+      runFrom envS fuel states (S "T") rawIn (.obj []) 1
+        { counts := [((S "f", rawIn), 1)],
+          log := [.lambdaSucceeded reply, .lambdaScheduled rawIn (S "arn:aws:rpcmessage:local::function:f")] } := by
   obtain ⟨d, hd⟩ := hRetry0
   exact task_refused_transition_retried_on_raw_input envS fuel states (S "T") (S "f") (S "N") tState rawIn (.obj [])
     rawIn rawIn reply reply bigOut 0 {} d 1 (by rfl) (by rfl) (by rfl) (by rfl) (by rfl) (by rfl) (by rfl)
